@@ -114,6 +114,9 @@ func (g *G) genAction(f *FlowSpec, nd *nodeDraft, loc J) J {
 		"call_resthook", "call_classifier", "transfer_airtime", "start_session", "send_broadcast", "add_input_labels", "request_optin",
 	}
 	kind := kinds[t.Pick("actionkind", len(kinds))]
+	if g.forceKind != "" {
+		kind = g.forceKind
+	}
 	if kind == "transfer_airtime" && g.P.NoAirtime {
 		kind = "set_run_result"
 	}
@@ -218,7 +221,7 @@ func (g *G) genAction(f *FlowSpec, nd *nodeDraft, loc J) J {
 		a["path"] = []string{"@input.text", "+12065550101", "12345", "@contact.name", "bob@nyaruka.com", "@(\"\")", "+1 (206) 555-0102", "@(1/0)"}[t.Pick("urnpath", 8)]
 	case "enter_flow":
 		fl := g.S.Flows[t.Pick("whichflow", len(g.S.Flows))]
-		if t.Chance("missingflow", 1, 15) {
+		if t.Chance("missingflow", 1, 15) || (g.forceKind != "" && t.Chance("missingflow2", 1, 2)) {
 			a["flow"] = J{"uuid": UUID(kFlow, 9999), "name": "Deleted Flow"}
 		} else {
 			a["flow"] = J{"uuid": fl.UUID, "name": fl.Name}
@@ -362,22 +365,46 @@ func (g *G) genAction(f *FlowSpec, nd *nodeDraft, loc J) J {
 
 func (g *G) otherContacts(a J) {
 	t := g.T
-	switch t.Weighted("recipients", 3, 2, 2, 2, 1, 1) {
-	case 0:
-		a["contacts"] = []any{J{"uuid": UUID(kContact, 1), "name": "Other"}}
-	case 1:
-		a["groups"] = g.groupRefs(false)
-	case 2:
-		a["contact_query"] = []string{"name = @contact.name", "age > @fields.age", "tel = @urns.tel", "name ~ @input.text", "@(1/0)"}[t.Pick("cquery", 5)]
-	case 3:
-		a["urns"] = toAnyS([]string{"tel:+12065550199"})
-	case 4:
-		a["legacy_vars"] = toAnyS([]string{[]string{"@contact.uuid", "@input.text", "Testers", "+12065550198"}[t.Pick("legacyvar", 4)]})
-	case 5:
-		if a["type"] == "start_session" {
-			a["create_contact"] = true
-		} else {
-			a["contacts"] = []any{J{"uuid": UUID(kContact, 2), "name": "Other 2"}}
+	// every recipient kind independently (lists of several entries: the engine copies and
+	// appends to them per execution), at least one
+	have := false
+	if t.Chance("rc_contacts", 1, 3) {
+		l := []any{}
+		for i, n := 0, 1+t.Pick("ncontacts", 5); i < n; i++ {
+			l = append(l, J{"uuid": UUID(kContact, 1+i), "name": fmt.Sprintf("Other %d", i)})
 		}
+		a["contacts"] = l
+		have = true
+	}
+	if t.Chance("rc_groups", 1, 3) {
+		a["groups"] = g.groupRefs(false)
+		have = true
+	}
+	if t.Chance("rc_query", 1, 4) {
+		a["contact_query"] = []string{"name = @contact.name", "age > @fields.age", "tel = @urns.tel", "name ~ @input.text", "@(1/0)"}[t.Pick("cquery", 5)]
+		have = true
+	}
+	if t.Chance("rc_urns", 1, 3) {
+		l := []any{}
+		for i, n := 0, 1+t.Pick("nurns", 6); i < n; i++ {
+			l = append(l, fmt.Sprintf("tel:+1206555019%d", i))
+		}
+		a["urns"] = l
+		have = true
+	}
+	if t.Chance("rc_legacy", 1, 3) {
+		l := []any{}
+		for i, n := 0, 1+t.Pick("nlegacy", 2); i < n; i++ {
+			l = append(l, []string{"@contact.uuid", "@input.text", "Testers", "+12065550198", "@contact.urn", "@(contact.urns[0])"}[t.Pick("legacyvar", 6)])
+		}
+		a["legacy_vars"] = l
+		have = true
+	}
+	if a["type"] == "start_session" && t.Chance("rc_create", 1, 6) {
+		a["create_contact"] = true
+		have = true
+	}
+	if !have {
+		a["contacts"] = []any{J{"uuid": UUID(kContact, 2), "name": "Other 2"}}
 	}
 }
